@@ -14,6 +14,7 @@ import (
 	"context"
 	"fmt"
 	"math/rand"
+	"mime"
 	netmail "net/mail"
 	"strings"
 	"time"
@@ -305,6 +306,12 @@ func runCase(r *hx.Run, c hx.Case) {
 
 	m := mail.NewMsg()
 	flags := make([]byte, 0, len(ops))
+	// "what was set", kept independently of go-mail and net/mail: for every key the list of (name, mailbox)
+	// the calls so far denote, read from the call arguments by addrx.IntendedName / IntendedMailbox and the
+	// reference semantics of the property (Set replaces, Add appends one, From keeps the first).  A key is
+	// dropped from the bookkeeping (unknown) as soon as a call on it is outside what the reader covers.
+	shadow := map[string][]wantAddr{}
+	unknown := map[string]bool{}
 	for i, o := range ops {
 		fam, key := classify(o.name)
 		var before []*netmail.Address
@@ -322,6 +329,7 @@ func runCase(r *hx.Run, c hx.Case) {
 			flags = append(flags, '0')
 		}
 		r.Dist["setter:"+o.name]++
+		trackShadow(shadow, unknown, o, fam, key, ok)
 		// reference semantics of the append setters (direct oracle): a valid address is appended,
 		// exactly once, and nothing already stored changes; an invalid one changes nothing
 		if fam == "Add" || fam == "AddFormat" {
@@ -530,6 +538,178 @@ func runCase(r *hx.Run, c hx.Case) {
 	if count["EnvelopeFrom"] > 0 {
 		r.Fail(c.ID, "envelope-from-field-rendered", "the header block contains an EnvelopeFrom field")
 	}
+	// 6. names and addresses are the ones that were set: the stored lists and the rendered fields (read by the
+	//    independent reader, not net/mail) against the bookkeeping of the call arguments
+	checked := 0
+	for k, hk := range hdrOf {
+		if unknown[k] {
+			continue
+		}
+		checked++
+		if !sameWant(shadow[k], storedWant(stored[hk])) {
+			r.Fail(c.ID, "stored-list-differs-from-what-was-set", fmt.Sprintf("%s: stored %s, the calls set %s", k, wantString(storedWant(stored[hk])), wantString(shadow[k])))
+		}
+	}
+	for _, x := range []struct{ field, key string }{{"From", "From"}, {"To", "To"}, {"Cc", "Cc"}, {"Reply-To", "ReplyTo"}} {
+		key := x.key
+		if key == "From" && !unknown["From"] && len(shadow["From"]) == 0 {
+			key = "EnvelopeFrom"
+		}
+		if unknown[key] || count[x.field] != 1 {
+			continue
+		}
+		exp := shadow[key]
+		if x.field == "From" && len(exp) > 1 {
+			exp = exp[:1]
+		}
+		got, ok := readAddressList(val[x.field])
+		if !ok {
+			r.Dist["rendered-field-not-readable-by-independent-reader"]++
+			continue
+		}
+		if !sameWant(exp, got) {
+			r.Fail(c.ID, "rendered-field-differs-from-what-was-set", fmt.Sprintf("field %s: %q reads as %s, the calls set %s", x.field, val[x.field], wantString(got), wantString(exp)))
+		}
+	}
+	r.Dist["keys-compared-with-what-was-set"] += checked
+}
+
+type wantAddr struct{ name, addr string }
+
+func storedWant(l []*netmail.Address) []wantAddr {
+	out := make([]wantAddr, len(l))
+	for i, a := range l {
+		out[i] = wantAddr{a.Name, a.Address}
+	}
+	return out
+}
+
+func sameWant(a, b []wantAddr) bool {
+	if len(a) != len(b) {
+		return false
+	}
+	for i := range a {
+		if a[i] != b[i] {
+			return false
+		}
+	}
+	return true
+}
+
+func wantString(l []wantAddr) string {
+	parts := make([]string, len(l))
+	for i, a := range l {
+		parts[i] = fmt.Sprintf("%q/%q", a.name, a.addr)
+	}
+	return "[" + strings.Join(parts, " ") + "]"
+}
+
+func intendedAddr(s string) (wantAddr, bool) {
+	mb, ok := addrx.IntendedMailbox(s)
+	if !ok {
+		return wantAddr{}, false
+	}
+	n, ok := addrx.IntendedName(s)
+	if !ok {
+		return wantAddr{}, false
+	}
+	return wantAddr{n, mb.String()}, true
+}
+
+var keyOfHeader = map[string]string{"To": "To", "Cc": "Cc", "Bcc": "Bcc", "From": "From", "Reply-To": "ReplyTo", "EnvelopeFrom": "EnvelopeFrom"}
+
+// trackShadow applies the reference semantics of one call to the bookkeeping.
+func trackShadow(shadow map[string][]wantAddr, unknown map[string]bool, o op, fam, key string, ok bool) {
+	var vals []string
+	switch fam {
+	case "Set", "":
+		vals = o.args
+	case "Format", "AddFormat":
+		if len(o.args) != 2 {
+			unknown[key] = true
+			return
+		}
+		vals = []string{formatAddr(o.args[0], o.args[1])}
+	case "Add":
+		vals = o.args
+	case "SetAddrHeader":
+		k, found := keyOfHeader[o.args[0]]
+		if !found {
+			return
+		}
+		key, vals = k, o.args[1:]
+	case "SetAddrHeaderIgnoreInvalid":
+		if k, found := keyOfHeader[o.args[0]]; found {
+			unknown[k] = true
+		}
+		return
+	default: // Ign, FromString: outside the reader
+		unknown[key] = true
+		return
+	}
+	if !ok {
+		return // a failing setter changes nothing
+	}
+	l := make([]wantAddr, 0, len(vals))
+	for _, v := range vals {
+		w, readable := intendedAddr(v)
+		if !readable {
+			unknown[key] = true
+			return
+		}
+		l = append(l, w)
+	}
+	switch {
+	case fam == "Add" || fam == "AddFormat":
+		if !unknown[key] {
+			shadow[key] = append(shadow[key], l...)
+		}
+	case key == "From":
+		if len(l) > 0 {
+			shadow[key], unknown[key] = l[:1], false
+		}
+	default:
+		shadow[key], unknown[key] = l, false
+	}
+}
+
+// readAddressList splits an unfolded address field at the commas outside quoted strings and angle
+// brackets and reads every element with the independent reader.
+func readAddressList(v string) ([]wantAddr, bool) {
+	var out []wantAddr
+	inq, esc, ang, start := false, false, false, 0
+	flush := func(end int) bool {
+		w, ok := intendedAddr(v[start:end])
+		if !ok {
+			return false
+		}
+		out = append(out, w)
+		return true
+	}
+	for i := 0; i < len(v); i++ {
+		ch := v[i]
+		switch {
+		case esc:
+			esc = false
+		case inq && ch == '\\':
+			esc = true
+		case ch == '"' && !ang:
+			inq = !inq
+		case !inq && ch == '<':
+			ang = true
+		case !inq && ch == '>':
+			ang = false
+		case !inq && !ang && ch == ',':
+			if !flush(i) {
+				return nil, false
+			}
+			start = i + 1
+		}
+	}
+	if !flush(len(v)) {
+		return nil, false
+	}
+	return out, true
 }
 
 func flagsOrDash(f []byte) string {
@@ -586,7 +766,53 @@ func (g *gen) addrs(max int) []string {
 	return out
 }
 
-var formatNames = []string{"Plain Name", "Doe, John", "Jürgen Müller", "quo\"te", "back\\slash", "", "a <b> c", "日本"}
+var formatNames = []string{"Plain Name", "Doe, John", "Jürgen Müller", "quo\"te", "back\\slash", "", "a <b> c", "日本",
+	"Jean\tLuc", "Jean\u00a0Luc", "zw\u200cnj", "zw\u200dj x", "soft\u00adhyphen", "lrm\u200e (x), y", "rlm\u200f", "line\u2028sep"}
+
+// hardAddr: a plain, unique mailbox under a display name that is hard to re-serialise
+func (g *gen) hardAddr() string {
+	g.uniq++
+	spec := fmt.Sprintf("rcpt%d@x.test", g.uniq)
+	n := addrx.HardNames[g.rng.Intn(len(addrx.HardNames))]
+	g.r.Dist["value:name-hard"]++
+	switch g.rng.Intn(3) {
+	case 0:
+		return mime.QEncoding.Encode("utf-8", n) + " <" + spec + ">"
+	case 1:
+		return mime.BEncoding.Encode("utf-8", n) + " <" + spec + ">"
+	}
+	return addrx.QuoteName(n) + " <" + spec + ">"
+}
+
+// chain: a Set on one of To / Cc / Bcc followed by Add / AddFormat calls on the SAME header (the stored
+// entries are re-serialised and re-parsed by every one of them), other calls in between
+func (g *gen) chain() []op {
+	slot := slots[g.rng.Intn(len(slots))]
+	var first []string
+	for i := 0; i < 1+g.rng.Intn(3); i++ {
+		if g.rng.Intn(3) == 0 {
+			first = append(first, g.addr())
+		} else {
+			first = append(first, g.hardAddr())
+		}
+	}
+	ops := []op{{slot, first}}
+	for i := 0; i < 1+g.rng.Intn(3); i++ {
+		if g.rng.Intn(4) == 0 {
+			ops = append(ops, g.op())
+		}
+		switch g.rng.Intn(3) {
+		case 0:
+			ops = append(ops, op{"Add" + slot, []string{g.hardAddr()}})
+		case 1:
+			ops = append(ops, op{"Add" + slot, []string{g.addr()}})
+		default:
+			g.uniq++
+			ops = append(ops, op{"Add" + slot + "Format", []string{formatNames[g.rng.Intn(len(formatNames))], fmt.Sprintf("fmt%d@y.test", g.uniq)}})
+		}
+	}
+	return ops
+}
 
 func (g *gen) op() op {
 	name := setterNames[g.rng.Intn(len(setterNames))]
@@ -645,11 +871,28 @@ func Run(r *hx.Run, replay []hx.Case) {
 	} {
 		runCase(r, hx.Case{ID: r.NewID(), Kind: "seq", Args: []string{opsString(ops)}})
 	}
+	// every hard display name once: Set, then Add and AddFormat on the same header
+	for i, hn := range addrx.HardNames {
+		runCase(r, hx.Case{ID: r.NewID(), Kind: "seq", Args: []string{opsString([]op{
+			{"From", []string{"sender@origin.test"}},
+			{"To", []string{addrx.QuoteName(hn) + " <first@x.test>", "plain@x.test"}},
+			{"AddTo", []string{"Second <second@x.test>"}},
+			{"AddToFormat", []string{formatNames[8+i%8], "third@x.test"}},
+			{"Cc", []string{mime.QEncoding.Encode("utf-8", hn) + " <cc1@x.test>"}},
+			{"AddCcFormat", []string{"Plain Name", "cc2@x.test"}},
+			{"AddCc", []string{mime.BEncoding.Encode("utf-8", hn) + " <cc3@x.test>"}},
+		})}})
+	}
 	for i := 0; i < n && !r.Expired(); i++ {
-		k := 1 + g.rng.Intn(12)
-		ops := make([]op, k)
-		for j := range ops {
-			ops[j] = g.op()
+		var ops []op
+		if i%3 == 0 {
+			ops = g.chain()
+			r.Dist["shape:set-then-add-chain"]++
+		} else {
+			ops = make([]op, 1+g.rng.Intn(12))
+			for j := range ops {
+				ops[j] = g.op()
+			}
 		}
 		// most sequences should be sendable: make sure a sender exists in 3 of 4 cases
 		if g.rng.Intn(4) > 0 {
